@@ -13,7 +13,7 @@ CHECKS = {
               text='Bounded symbolic verification: round trip, mask exactness, integral identity, orthonormality and agreement with the analytic basis are decided for ALL spectral fields in [-1,1]^n on each enumerated grid (both implementations, 3 spacings incl. grids whose truncation sits exactly at the resolution limit, padding options, leading axes); mask and wavenumber tables tied to the documented triangular truncation. Integer-valued fields stored as int64/int32 (symbolic integer values) are transformed like their real values.',
               design='§3 C01'),
   'C02': dict(category='other', technique='symbolic execution of the traced jaxpr + QF_LRA queries; mpmath analytic-derivative oracle',
-              text='Bounded symbolic verification: every spectral operator (d_dlon, cos_lat_d_dlat, sec_lat_d_dlat_cos2, grad, div, curl, Laplacian, inverse, clipping, wind conversions) is compared for ALL fields in the box with analytic derivatives of the basis, the eigenvalue specification, vector identities and round trips, on each enumerated grid.',
+              text='Bounded symbolic verification: every spectral operator (d_dlon, cos_lat_d_dlat, sec_lat_d_dlat_cos2, grad, div, curl, Laplacian, inverse, clipping, wind conversions) is compared for ALL fields in the box with analytic derivatives of the basis, the eigenvalue specification, vector identities and round trips, on each enumerated grid. Integer-valued coefficients stored as int64 give the same operators as their float64 values.',
               design='§3 C02'),
   'C03': dict(category='other', technique='symbolic execution of the traced jaxpr + QF_LRA queries (monomial abstraction, denominators cleared for shallow water)',
               text='Bounded symbolic verification of the resolvent identity inverse(x - eta G x, eta) = x for ALL states on each enumerated (grid, uneven/even sigma levels, T_ref, constants, step size of either sign, dense/sparse operator, split/stacked/blockwise solve); dense==sparse for all inputs; linearity; derived (replace/copy) equation objects; shallow water with symbolic step and reference potentials. Reference profiles with isothermal stretches (some vertical couplings vanish, not all) are in the set.',
@@ -43,7 +43,7 @@ CHECKS = {
               text='trajectory_from_step, repeated, step_with_filters, nested_checkpoint_scan (carries, non-scalar stacked outputs, gradients, explicit length, identity checkpoint, no scanned inputs), accumulate_repeated and digital-filter initialisation (= defining sum with independently computed Lanczos weights, evaluated twice) are equal to their sequential definitions for EVERY step/filter function and all data, for each enumerated split / ordered factorisation.',
               design='§3 C14'),
   'C15': dict(category='other', technique='symbolic execution of the traced filter factories with symbolic strength parameters (z3 terms, exp uninterpreted) + QF_NRA queries on the exp-arguments; polynomial identities for application and Robert-Asselin',
-              text='For ALL positive attenuation/scale/dt/tau: factors depend only on total wavenumber, equal 1 for the mean, lie in (0,1], are non-increasing, compose over half steps and follow the documented top-mode law (orders 1..18, cutoffs, both layouts, padded grids); application to pytrees is an elementwise product on spectral leaves and the identity on others; array strengths (incl. exact-zero / infinite-tau entries) act slice-wise for all six factories; Robert-Asselin identities for all r.',
+              text='For ALL positive attenuation/scale/dt/tau: factors depend only on total wavenumber, equal 1 for the mean, lie in (0,1], are non-increasing, compose over half steps and follow the documented top-mode law (orders 1..18, cutoffs, both layouts, padded grids); application to pytrees is an elementwise product on spectral leaves and the identity on others; array strengths (incl. exact-zero / infinite-tau entries) act slice-wise for all six factories; Robert-Asselin identities for all r. Integer-stored spectral leaves (int64/int32) are filtered like their real values.',
               design='§3 C15'),
   'C16': dict(category='other', technique='symbolic execution of the traced regridding code with symbolic grid bounds / surface pressure / fields (z3 terms with ite, sin uninterpreted) + QF_LRA / QF_NRA queries with cut-point abstraction; affine normal forms for concrete grid pairs',
               text='Vertical: overlap lemmas for ALL strictly increasing source/target bounds (<= 6x5 cells), weights in [0,1] with unit row sums, hybrid-to-sigma regridding for ALL surface pressures in [400,1100] and fields (constants, convex combination, thickness-weighted integral over the covered range against an independent specification of the hybrid layers, low-top models). Horizontal: latitude overlap identities for ALL increasing centres (<= 4x3), symbolic longitude centres, concrete grid pairs with ALL fields symbolic (constants, range, area integral), documented NaN rules on enumerated missing patterns. Integer (int64/int32, values in [-8,8]) and boolean fields with SYMBOLIC values regrid exactly like their float64 values (QF_LIRA, float->int conversion as ToInt).',
